@@ -21,7 +21,7 @@ FIELDS = {
     'aux_path': Str,
     'size': Int,
     'checksums': Checksums,
-    'ts': Int,                      # datetime as whole seconds since the epoch (A-datetime)
+    'ts': Any,                      # datetime object (opaque; A-datetime)
     # ManifestFile
     'entries': ListT(Entry),
     'openpgp_signed': Opt(Bool),
